@@ -171,31 +171,54 @@ Qed.
 Theorem timeout_is_wall_clock t w : (gen_timeout_delay t w == t)%Q.
 Proof. apply timeout_delay_tie. Qed.
 
-(** ** pointer operations: the attribute updates and the event written are the source's own; a negative shift count
-    (button < 1) is Python's ValueError *)
-Definition apply_ptr (r : (Z * Z * Z) * (Z * Z * Z)) : ptr * option bytes :=
-  let '((x', y', m'), (ex, ey, em)) := r in (mk_ptr x' y' m', pointerEvent ex ey em).
+(** ** pointer operations: the event written and the attribute updates are the source's own; the attributes are
+    assigned after the event has been written, so an operation that raises (a field that does not fit the message, a
+    negative shift count for button < 1) leaves the remembered position and buttons as they were *)
+Definition apply_ptr (s : ptr) (r : (Z * Z * Z) * (Z * Z * Z)) : ptr * option bytes :=
+  let '((x', y', m'), (ex, ey, em)) := r in
+  match pointerEvent ex ey em with
+  | Some w => (mk_ptr x' y' m', Some w)
+  | None => (s, None)
+  end.
 
 Theorem mouseMove_is_source s x y :
-  mouseMove s x y = apply_ptr (gen_mouseMove (px s) (py s) (pbuttons s) x y).
-Proof. reflexivity. Qed.
+  gen_mouseMove_commits_after_event = true /\
+  mouseMove s x y = apply_ptr s (gen_mouseMove (px s) (py s) (pbuttons s) x y).
+Proof. split; reflexivity. Qed.
 
 Theorem mouseDown_is_source s b :
+  gen_mouseDown_commits_after_event = true /\
   mouseDown s b =
-  if gen_mouseDown_defined (px s) (py s) (pbuttons s) b then apply_ptr (gen_mouseDown (px s) (py s) (pbuttons s) b) else (s, None).
+  if gen_mouseDown_defined (px s) (py s) (pbuttons s) b then apply_ptr s (gen_mouseDown (px s) (py s) (pbuttons s) b) else (s, None).
 Proof.
+  split; [reflexivity|].
   unfold mouseDown, gen_mouseDown_defined. destruct (Z.ltb_spec (b - 1) 0) as [H|H].
   - replace (0 <=? b - 1) with false by (symmetry; apply Z.leb_gt; lia). reflexivity.
   - replace (0 <=? b - 1) with true by (symmetry; apply Z.leb_le; lia). reflexivity.
 Qed.
 
+(* mouseUp assigns first: its only failure is the negative shift count, which is raised before the assignment; clearing a
+   bit cannot make the mask unpackable when it was packable *)
+Definition apply_ptr_eager (r : (Z * Z * Z) * (Z * Z * Z)) : ptr * option bytes :=
+  let '((x', y', m'), (ex, ey, em)) := r in (mk_ptr x' y' m', pointerEvent ex ey em).
+
 Theorem mouseUp_is_source s b :
   mouseUp s b =
-  if gen_mouseUp_defined (px s) (py s) (pbuttons s) b then apply_ptr (gen_mouseUp (px s) (py s) (pbuttons s) b) else (s, None).
+  if gen_mouseUp_defined (px s) (py s) (pbuttons s) b then apply_ptr_eager (gen_mouseUp (px s) (py s) (pbuttons s) b) else (s, None).
 Proof.
   unfold mouseUp, gen_mouseUp_defined. destruct (Z.ltb_spec (b - 1) 0) as [H|H].
   - replace (0 <=? b - 1) with false by (symmetry; apply Z.leb_gt; lia). reflexivity.
   - replace (0 <=? b - 1) with true by (symmetry; apply Z.leb_le; lia). reflexivity.
+Qed.
+
+(* a pointer operation that raises leaves the client's bookkeeping untouched: later calls are not affected *)
+Theorem failed_move_keeps_state s x y s' : mouseMove s x y = (s', None) -> s' = s.
+Proof. unfold mouseMove. destruct (pointerEvent x y (pbuttons s)); intros H; inversion H; reflexivity. Qed.
+
+Theorem failed_down_keeps_state s b s' : mouseDown s b = (s', None) -> s' = s.
+Proof.
+  unfold mouseDown. destruct (b - 1 <? 0); [intros H; inversion H; reflexivity|]. cbv zeta.
+  destruct (pointerEvent _ _ _); intros H; inversion H; reflexivity.
 Qed.
 
 (** ** key operations: the passes over the decoded keys (direction, down-flag) are the source's own *)
@@ -232,10 +255,14 @@ Proof.
 Qed.
 
 Theorem pointer_ops_are_source s x y b :
-  mouseMove s x y = apply_ptr (gen_mouseMove (px s) (py s) (pbuttons s) x y) /\
-  mouseDown s b = (if gen_mouseDown_defined (px s) (py s) (pbuttons s) b then apply_ptr (gen_mouseDown (px s) (py s) (pbuttons s) b) else (s, None)) /\
-  mouseUp s b = (if gen_mouseUp_defined (px s) (py s) (pbuttons s) b then apply_ptr (gen_mouseUp (px s) (py s) (pbuttons s) b) else (s, None)).
+  mouseMove s x y = apply_ptr s (gen_mouseMove (px s) (py s) (pbuttons s) x y) /\
+  mouseDown s b = (if gen_mouseDown_defined (px s) (py s) (pbuttons s) b then apply_ptr s (gen_mouseDown (px s) (py s) (pbuttons s) b) else (s, None)) /\
+  mouseUp s b = (if gen_mouseUp_defined (px s) (py s) (pbuttons s) b then apply_ptr_eager (gen_mouseUp (px s) (py s) (pbuttons s) b) else (s, None)).
 Proof. split; [apply mouseMove_is_source|]. split; [apply mouseDown_is_source|apply mouseUp_is_source]. Qed.
+
+Theorem failed_pointer_op_keeps_state s x y b s' :
+  (mouseMove s x y = (s', None) -> s' = s) /\ (mouseDown s b = (s', None) -> s' = s).
+Proof. split; [apply failed_move_keeps_state|apply failed_down_keeps_state]. Qed.
 
 Theorem key_passes_are_source fc up key :
   keyPress fc up key = (match decode_key fc up key with None => None | Some keys => run_passes gen_keyPress_passes keys end) /\
